@@ -113,5 +113,11 @@ func init() {
 	reg(check{id: "C02", bin: simRoot, engine: "gosim", quickShards: 8, thoroughShards: 16, gomaxprocs: 1})
 	reg(check{id: "C33", bin: plainCmds, engine: "enum", quickShards: 1, thoroughShards: 1,
 		parts: []*check{{bin: simRoot, testName: "TestVerif_C33R", engine: "gosim", gomaxprocs: 1, quickShards: 8, thoroughShards: 16}}})
+	simProb := binKey{"sim", "rueidisprob"}
+	plainProb := binKey{"plain", "rueidisprob"}
+	for id, tn := range map[string]string{"C35": "TestVerif_C35C", "C36": "TestVerif_C36C", "C37": "TestVerif_C37C"} {
+		reg(check{id: id, bin: plainProb, engine: "enum", quickShards: 4, thoroughShards: 16,
+			parts: []*check{{bin: simProb, testName: tn, engine: "gosim", gomaxprocs: 1, quickShards: 4, thoroughShards: 8, quickBudget: 40, thoroughBudget: 300}}})
+	}
 	reg(check{id: "C24", bin: simRoot, engine: "gosim", quickShards: 8, thoroughShards: 16, gomaxprocs: 1})
 }
